@@ -6,7 +6,7 @@ import ctypes
 
 from .. import registries as R
 from .. import opsem
-from ..astutil import dotted, const, unparse, walk_shallow, ancestors
+from ..astutil import dotted, const, unparse, walk_shallow, ancestors, canon
 from ..cfg import build_cfg, repo_noreturn
 from ..model import AnalysisError
 from .c01 import chain_rules
@@ -21,7 +21,7 @@ PROPAGATORS = {'eval', 'eval_lvalue', '_eval_numeric', '_eval_string'}
 
 # fold sites exempt from the guard rule, one reason each
 FOLD_EXEMPT = {
-    'qbee/qvm_codegen.py:QvmCode.optimize:unary_expr.eval()':
+    'qbee/qvm_codegen.py:QvmCode.optimize:UnaryOp(...).eval()':
         'UnaryOp over an integral NumericLiteral built from a push operand: '
         'UnaryOp.eval saturates instead of raising and its only partial '
         'operation, int(round(.)), is applied to an int',
@@ -105,6 +105,9 @@ def folder_table(ctx, chain):
     for st in uf.node.body:
         if isinstance(st, ast.If):
             visit_if(st)
+    rets = [r.value.id for r in ast.walk(uf.node)
+            if isinstance(r, ast.Return) and isinstance(r.value, ast.Name)]
+    valname = rets[-1] if rets else 'value'
     for m, spec_s in (('NOT', '~a'), ('NEG', '-a'), ('PLUS', 'a')):
         construct = f'{uf.file}:UnaryOp.eval[{m}]'
         ctx.instance(rule_u, construct, sample={'operator': m})
@@ -119,8 +122,8 @@ def folder_table(ctx, chain):
             if isinstance(st, ast.Pass):
                 continue
             if isinstance(st, ast.Assign) and len(st.targets) == 1 and \
-                    dotted(st.targets[0]) == 'value':
-                cur = opsem.subst(st.value, {'value': cur})
+                    dotted(st.targets[0]) == valname:
+                cur = opsem.subst(st.value, {valname: cur})
             else:
                 ok = False
         if not ok:
@@ -206,7 +209,12 @@ def fold_sites(ctx):
                     n.func.attr == 'eval' and not n.args):
                 continue
             n_sites += 1
-            recv = unparse(n.func.value)
+            recv = canon(n.func.value, f.node)
+            for cls in ('UnaryOp', 'BinaryOp'):
+                if recv.startswith(f'<<expr.{cls}('):
+                    recv = f'{cls}(...)'
+            if recv.startswith('<<for:'):
+                recv = 'item-of:' + recv[6:].split('>>')[0][:40]
             construct = f'{f.file}:{f.qualname}:{recv}.eval()'
             guarded = False
             handler_ok = True
